@@ -39,11 +39,16 @@ type sqlTableRef struct {
 	Primary *sqlCol
 }
 
+// snakePlural: the usual snake case (a word starts at a capital that follows a lower-case letter or a digit, or that
+// ends a run of capitals and is followed by a lower-case letter: HTTPLog -> http_log, UserID -> user_id) plus "s".
 func snakePlural(name string) string {
+	rs := []rune(name)
+	isUp := func(r rune) bool { return r >= 'A' && r <= 'Z' }
+	isLow := func(r rune) bool { return r >= 'a' && r <= 'z' }
 	var sb strings.Builder
-	for i, r := range name {
-		if r >= 'A' && r <= 'Z' {
-			if i > 0 {
+	for i, r := range rs {
+		if isUp(r) {
+			if i > 0 && (!isUp(rs[i-1]) || (i+1 < len(rs) && isLow(rs[i+1]))) && rs[i-1] != '_' {
 				sb.WriteByte('_')
 			}
 			sb.WriteRune(r + 32)
